@@ -996,3 +996,306 @@ def r_gs_rank(ctx: RuleCtx, col: Collector):
                     f"solution that does not belong to it, so later solves on the same matrix are wrong")
         else:
             col.bad(where_of(g), g.rel, line_of(at), construct, "the remainder is normalised and stored without any significance test")
+
+
+# ---------------------------------------------------------------------------------------------------- C07 / C01
+SPARSE_ONLY = {"todense", "toarray", "tocsr", "tocsc", "tocoo", "tolil", "todia", "tobsr", "getrow", "getcol", "getnnz",
+               "eliminate_zeros", "sum_duplicates", "setdiag", "nonzero"} - {"nonzero"}
+
+
+def _linsys_modules(ctx: RuleCtx):
+    """Module classes that solve linear systems: they own a LinearSolver-typed attribute or an inner module, or call
+    np.linalg.solve/inv in their response (role, not name)."""
+    m = ctx.model
+    sb = m.solver_base()
+    mb = m.module_base()
+    out = []
+    for c in m.module_classes():
+        resp = m.resolve_method(c, "_response")
+        if resp is None or resp.cls is mb:
+            continue
+        at = ctx.flow.attr_types(c)
+        owns = any(m.classes.get(t) is not None and (m.is_subclass(m.classes[t], sb) or m.is_subclass(m.classes[t], mb))
+                   for ts in at.values() for t in ts)
+        direct = any(isinstance(x, ast.Call) and norm(x.func) in ("np.linalg.solve", "np.linalg.inv", "spla.solve", "spla.inv")
+                     for g in m.closure(c, "_response") for x in ast.walk(g.node))
+        if owns or direct:
+            out.append(c)
+    return out
+
+
+@rule("R-SPARSE-GUARD", floor=1)
+def r_sparse_guard(ctx: RuleCtx, col: Collector):
+    """A module documented for dense *or* sparse input calls sparse-only methods (.todense(), .toarray(), .tocsr() ...)
+    on data derived from its inputs only under a sparsity test; unguarded, the documented dense input raises
+    AttributeError."""
+    from .solver import guard_facts
+    m = ctx.model
+    mb = m.module_base()
+    for c in m.module_classes():
+        doc = ast.get_docstring(c.node) or ""
+        if "dense" not in doc.lower():
+            continue
+        for name in ("_response", "_sensitivity"):
+            f = m.resolve_method(c, name)
+            if f is None or f.cls is not c:
+                continue
+            selfn = m.self_name(f)
+            seeds = set(f.pos_params()) if name == "_response" else set()
+            dep = _dependent_names(f.node, seeds, selfn=selfn)
+            for n in ast.walk(f.node):
+                if isinstance(n, ast.Assign) and any(isinstance(x, ast.Attribute) and x.attr == "state" for x in ast.walk(n.value)):
+                    dep |= {x.id for t in n.targets for x in ast.walk(t) if isinstance(x, ast.Name) and x.id != selfn}
+            dep = _dependent_names(f.node, dep, selfn=selfn)
+            cfg = ctx.flow.cfg(f)
+            for n in ast.walk(f.node):
+                if not (isinstance(n, ast.Call) and isinstance(n.func, ast.Attribute) and n.func.attr in SPARSE_ONLY):
+                    continue
+                recv = n.func.value
+                if not (_names(recv) & dep):
+                    continue
+                st = n
+                while not isinstance(st, ast.stmt):
+                    st = parent(st)
+                nd = cfg.node_of(st)
+                facts = guard_facts(cfg, nd) if nd is not None else []
+                guarded = any(("issparse" in t or "is_sparse" in t or "isspmatrix" in t or "hasattr(" in t) and pol for t, pol in facts)
+                # conditional expression:  x.toarray() if issparse(x) else x
+                p = parent(n)
+                while p is not None and not isinstance(p, ast.stmt):
+                    if isinstance(p, ast.IfExp) and any(k in norm(p.test) for k in ("issparse", "is_sparse", "isspmatrix", "hasattr(")) and \
+                            any(y is n for y in ast.walk(p.body)):
+                        guarded = True
+                    p = parent(p)
+                construct = f"{c.name}.{name}: {norm(n)}"
+                if guarded:
+                    col.ok(where_of(f), f.rel, line_of(n), construct, "under a sparsity test")
+                else:
+                    col.bad(where_of(f), f.rel, line_of(n), construct,
+                            f"'{n.func.attr}()' exists only on scipy sparse matrices, but {c.name} documents dense input as well "
+                            f"and nothing tests the input here: a dense matrix raises AttributeError")
+    dedupe(col)
+
+
+REAL_LITERALS = {"float", "np.float64", "np.float32", "np.float_", "np.double", "'float'", "'float64'", "int", "np.int64"}
+ALLOC = {"np.zeros", "np.ones", "np.empty", "np.full"}
+ALLOC_LIKE = {"np.zeros_like", "np.ones_like", "np.empty_like", "np.full_like"}
+
+
+def _alloc_sources(e: ast.AST) -> Optional[Tuple[List[ast.AST], bool]]:
+    """(expressions the dtype of the allocation is taken from, always-complex) or None if `e` is not an allocation."""
+    if isinstance(e, ast.IfExp):
+        a, b = _alloc_sources(e.body), _alloc_sources(e.orelse)
+        if a is None or b is None:
+            return None
+        return (a[0] + b[0] + [e.test], a[1] and b[1])
+    if not isinstance(e, ast.Call):
+        return None
+    fn = norm(e.func)
+    dt = [k.value for k in e.keywords if k.arg == "dtype"]
+    if fn in ALLOC:
+        if not dt and len(e.args) >= 2 and fn != "np.full":
+            dt = [e.args[1]]
+        if not dt:
+            return ([], False)
+        t = norm(dt[0])
+        if t in ("complex", "np.complex128", "np.complex64", "'complex'"):
+            return ([], True)
+        if t in REAL_LITERALS:
+            return ([], False)
+        return ([dt[0]], False)
+    if fn in ALLOC_LIKE:
+        if dt:
+            t = norm(dt[0])
+            if t in ("complex", "np.complex128"):
+                return ([], True)
+            if t in REAL_LITERALS:
+                return ([], False)
+            return ([dt[0]] + ([e.args[0]] if "result_type" not in t else []), False)
+        return ([e.args[0]] if e.args else [], False)
+    return None
+
+
+def _param_deps(fn: ast.AST, params: Set[str], selfn: Optional[str], attr_deps: Dict[str, Set[str]], everything: Set[str]) -> Dict[str, Set[str]]:
+    """local name -> set of parameters (or pseudo-sources) its value depends on."""
+    deps: Dict[str, Set[str]] = {p: {p} for p in params}
+
+    def of(e) -> Set[str]:
+        out: Set[str] = set()
+        for x in ast.walk(e):
+            if isinstance(x, ast.Name) and x.id in deps:
+                out |= deps[x.id]
+            elif isinstance(x, ast.Attribute) and isinstance(x.value, ast.Name) and x.value.id == selfn and x.attr in attr_deps:
+                out |= attr_deps[x.attr]
+            elif isinstance(x, ast.Attribute) and x.attr == "state":
+                out |= everything
+        return out
+    changed = True
+    while changed:
+        changed = False
+        for n in ast.walk(fn):
+            src, tg = None, []
+            if isinstance(n, ast.Assign):
+                src, tg = n.value, n.targets
+            elif isinstance(n, ast.AugAssign):
+                src, tg = n.value, [n.target]
+            elif isinstance(n, (ast.For, ast.comprehension)):
+                src, tg = n.iter, [n.target]
+            if src is None:
+                continue
+            d = of(src)
+            for t in tg:
+                for x in ast.walk(t):
+                    if isinstance(x, ast.Name) and isinstance(x.ctx, ast.Store):
+                        if not d <= deps.get(x.id, set()):
+                            deps[x.id] = deps.get(x.id, set()) | d
+                            changed = True
+    deps["__of__"] = of       # type: ignore
+    return deps
+
+
+@rule("R-ALLOC-DTYPE", floor=3)
+def r_alloc_dtype(ctx: RuleCtx, col: Collector):
+    """Modules that solve linear systems accept real and complex data in every input.  An array they allocate and then
+    fill (subscript stores, in-place updates) takes its dtype from *all* inputs whose data ends up in it: an array
+    typed from the matrix alone (or with a literal real dtype) silently discards the imaginary part of a complex
+    right-hand side / prescribed value / stored solution.  In _sensitivity only data remembered from the response is
+    considered (the seeds follow the state's type by convention)."""
+    m = ctx.model
+    for c in _linsys_modules(ctx):
+        resp = m.resolve_method(c, "_response")
+        selfn = m.self_name(resp)
+        rparams = set(resp.pos_params()) | ({resp.vararg()} if resp.vararg() else set())
+        # attributes written by the response closure and what they depend on
+        attr_deps: Dict[str, Set[str]] = {}
+        attr_alloc: Dict[str, Tuple[Set[str], bool]] = {}
+        for g in m.closure(c, "_response"):
+            sg = m.self_name(g)
+            gp = set(g.pos_params()) if g is resp else set()
+            deps = _param_deps(g.node, gp, sg, attr_deps, rparams)
+            of = deps["__of__"]
+            for n in ast.walk(g.node):
+                if isinstance(n, ast.Assign):
+                    for t in n.targets:
+                        if isinstance(t, ast.Attribute) and isinstance(t.value, ast.Name) and t.value.id == sg:
+                            attr_deps[t.attr] = attr_deps.get(t.attr, set()) | of(n.value)
+                            al = _alloc_sources(n.value)
+                            if al is not None:
+                                srcs = set()
+                                for ex in al[0]:
+                                    srcs |= of(ex)
+                                attr_alloc[t.attr] = (srcs, al[1])
+        for name in ("_response", "_sensitivity"):
+            f = m.resolve_method(c, name)
+            if f is None or f.cls is not c:
+                continue
+            sf = m.self_name(f)
+            params = rparams if name == "_response" else set()
+            deps = _param_deps(f.node, params, sf, attr_deps if name == "_sensitivity" else {}, rparams)
+            of = deps["__of__"]
+            allocs: Dict[str, Tuple[Set[str], bool, ast.AST]] = {}
+
+            def key_of(t):
+                if isinstance(t, ast.Name):
+                    return t.id
+                if isinstance(t, ast.Attribute) and isinstance(t.value, ast.Name) and t.value.id == sf:
+                    return f"{sf}.{t.attr}"
+                return None
+            for n in ast.walk(f.node):
+                if isinstance(n, ast.Assign) and len(n.targets) == 1:
+                    k = key_of(n.targets[0])
+                    al = _alloc_sources(n.value)
+                    if k and al is not None:
+                        srcs: Set[str] = set()
+                        for ex in al[0]:
+                            for x in ast.walk(ex):
+                                if isinstance(x, ast.Name) and x.id in allocs:
+                                    srcs |= allocs[x.id][0]
+                                elif isinstance(x, ast.Name) and x.id in deps:
+                                    srcs |= deps[x.id]
+                                elif isinstance(x, ast.Attribute) and isinstance(x.value, ast.Name) and x.value.id == sf:
+                                    kk = f"{sf}.{x.attr}"
+                                    if kk in allocs:
+                                        srcs |= allocs[kk][0]
+                                    elif x.attr in attr_alloc:
+                                        srcs |= attr_alloc[x.attr][0]
+                                    elif x.attr in attr_deps:
+                                        srcs |= attr_deps[x.attr]
+                                elif isinstance(x, ast.Attribute) and x.attr == "state":
+                                    srcs |= rparams
+                        allocs[k] = (srcs, al[1], n)
+            for n in ast.walk(f.node):
+                tgt = val = None
+                if isinstance(n, ast.Assign) and isinstance(n.targets[0], ast.Subscript):
+                    tgt, val = n.targets[0], n.value
+                elif isinstance(n, ast.AugAssign):
+                    tgt, val = n.target, n.value
+                if tgt is None:
+                    continue
+                base = tgt
+                while isinstance(base, ast.Subscript):
+                    base = base.value
+                k = key_of(base)
+                if k is None or k not in allocs:
+                    continue
+                srcs, always_complex, at = allocs[k]
+                if always_complex:
+                    continue
+                vt = norm(val)
+                if any(vt.startswith(p) for p in ("np.real(", "np.imag(", "abs(", "np.abs(")):
+                    continue
+                need = of(val)
+                missing = need - srcs
+                construct = f"{c.name}.{name}: dtype of '{k}' vs data stored by '{stmt_key(n)}'"
+                if missing:
+                    col.bad(where_of(f), f.rel, line_of(n), construct,
+                            f"'{k}' is allocated by '{stmt_key(at)}' (dtype taken from {sorted(srcs) or 'a real literal'}), but this "
+                            f"statement stores data that depends on {sorted(missing)}: if that input is complex and the others are "
+                            f"real, NumPy casts to real and discards the imaginary part")
+                else:
+                    col.ok(where_of(f), f.rel, line_of(n), construct, f"dtype covers {sorted(need) or 'constants'}")
+    dedupe(col)
+
+
+@rule("R-ADJ-SOLVE", floor=3, witness_min=1)
+def r_adj_solve(ctx: RuleCtx, col: Collector):
+    """The adjoint of x = A^-1 b needs A^-T: a module whose response solves a linear system with an input-derived
+    matrix has, somewhere in its sensitivity closure, a transposed solve (trans='T'/'H'), a transposed explicit
+    inverse, or a symmetry test - re-using only the forward solution on both sides of the seed (C s C^T) is the
+    adjoint of a symmetric system only."""
+    m = ctx.model
+    for c in _linsys_modules(ctx):
+        sens = m.resolve_method(c, "_sensitivity")
+        resp = m.resolve_method(c, "_response")
+        if sens is None or sens.cls is m.module_base():
+            continue
+        rclos = m.closure(c, "_response")
+        solves = [x for g in rclos for x in ast.walk(g.node) if isinstance(x, ast.Call) and (
+            (isinstance(x.func, ast.Attribute) and x.func.attr in ("solve", "response") and not norm(x.func).startswith("np.") and norm(x.func.value) != m.self_name(g))
+            or norm(x.func) in ("np.linalg.solve", "np.linalg.inv", "spla.solve", "spla.inv"))]
+        if not solves:
+            continue
+        rq = {g.qual for g in rclos}
+        sclos = [g for g in m.closure(c, "_sensitivity") if g.qual not in rq or g is sens]
+        txt = " ".join(norm(g.node) for g in sclos)
+        trans_solve = any(isinstance(x, ast.Call) and isinstance(x.func, ast.Attribute) and x.func.attr == "solve" and
+                          any(k.arg == "trans" and isinstance(k.value, ast.Constant) and k.value.value in ("T", "H") for k in x.keywords)
+                          for g in sclos for x in ast.walk(g.node))
+        inv_t = False
+        if any(norm(x.func) in ("np.linalg.inv", "spla.inv") for x in solves):
+            # explicit inverse kept as the output: its transpose must appear in the sensitivity
+            inv_t = ".T@" in txt or ".T)" in txt
+        sym_test = any(k in txt for k in ("issymmetric", "is_symmetric", "ishermitian", "is_hermitian"))
+        lin_t = "np.linalg.solve(" in txt and ".T" in txt
+        construct = f"{c.name}: adjoint of the linear solve in _response"
+        if trans_solve:
+            col.ok(where_of(sens), sens.rel, line_of(sens.node), construct, "transposed solve in the sensitivity closure")
+        elif inv_t:
+            col.ok(where_of(sens), sens.rel, line_of(sens.node), construct, "transposed explicit inverse")
+        elif sym_test or lin_t:
+            col.ok(where_of(sens), sens.rel, line_of(sens.node), construct, "symmetry test / transposed dense solve")
+        else:
+            col.bad(where_of(sens), sens.rel, line_of(sens.node), construct,
+                    f"_response solves a linear system ('{norm(solves[0])[:60]}') but the sensitivity contains no transposed solve, "
+                    f"no transposed inverse and no symmetry test: it re-uses the forward solution, which is the adjoint only for a "
+                    f"symmetric matrix")
